@@ -20,6 +20,11 @@ def root_of(fn, i):
             return 'this', path[::-1]
         if k == 'DeclRefExpr':
             d = n['decl']
+            rv = range_vars(fn)
+            if d.get('dk') == 'local' and d.get('id') in rv and rv[d['id']][1]:
+                path.append('[]')
+                i = rv[d['id']][0]
+                continue
             if d.get('dk') == 'local' and d.get('isref'):
                 init = local_init(fn, d['id'])
                 if init is not None:
@@ -83,6 +88,19 @@ def root_of(fn, i):
             return 'literal', path[::-1]
         return 'unknown', path[::-1]
     return 'unknown', path[::-1]
+
+
+def range_vars(fn):
+    """{loop variable decl id: (range expression node, is_reference)} for the range-for loops of fn"""
+    c = getattr(fn, '_range_vars', None)
+    if c is None:
+        c = {}
+        for n in fn.all_nodes({'CXXForRangeStmt'}):
+            lv = n.get('loopvar')
+            if lv and 'range' in n:
+                c[lv['id']] = (n['range'], bool(lv.get('isref')), n['id'])
+        fn._range_vars = c
+    return c
 
 
 def local_init(fn, did):
@@ -222,6 +240,10 @@ class Renderer:
                 idx = [p['id'] for p in fn.params].index(d['id']) if d['id'] in [p['id'] for p in fn.params] else -1
                 return 'arg%d' % idx
             if dk == 'local':
+                rv = range_vars(fn)
+                if d['id'] in rv:
+                    el = '%s[local:%s]' % (self.render(rv[d['id']][0], depth + 1), d['name'])
+                    return el if rv[d['id']][1] else 'copy(%s)' % el
                 sd = self.single_def_locals()
                 if d['id'] in sd:
                     return self.render(sd[d['id']]['init'], depth + 1)
